@@ -22,6 +22,7 @@ RULE = ('schemas: every corpus schema that builds without errors (with its corpu
         'included into two namespaces as a chameleon); observations: (kind, qualified name, structural signature) of every global component and (verdict, ordered error reasons, decoded data) of '
         'every probe; a case = (schema, transformation); non-trivial = the schema has at least 3 global declarations or a '
         'composition element; the number of distinct global build orders is measured with a PY_START probe')
+RULE += (' ' + 'Re-spellings include absolute paths and file URLs with dot segments; one catalogue document is reached by two include routes.')
 ASSUMPTIONS = [
     'transformations cut and paste source text spans, so every declaration keeps its in-element namespace scope',
     'schemas using xs:redefine / xs:override are not permuted or split (order is significant there by definition)',
